@@ -82,13 +82,35 @@ def snapshot(doc):
         'ids': [id(n) for n in nodes],
         'attrs': [(id(n), [(str(k), repr(v)) for k, v in n.attrs.items()]) for n in nodes if isinstance(n, bs4.Tag)],
         'parents': [id(n.parent) for n in nodes],
+        # the links of the top node itself: a parentless fragment stays parentless
+        'top-links': [id(top.parent), id(top.previous_element), id(top.previous_sibling), id(top.next_sibling)],
     }
 
 
+class CallDoesNotReturn(Exception):
+    pass
+
+
+class Inconclusive(BaseException):
+    """Not caught by the per-step handlers: ends the shard as a harness error (exit 2), never as a violation."""
+
+
 def q(fn, *a, **k):
+    """One library call.  A call that burns 10 s of CPU on these small trees is run again under a step counter over
+    soupsieve and bs4 frames; only exceeding the step budget is reported (as an exception, so it lands in a bucket)."""
+    def call():
+        r = fn(*a, **k)
+        return r if r is None or isinstance(r, (bool, list, bs4.Tag)) else list(r)
     with warnings.catch_warnings():
         warnings.simplefilter('ignore')
-        return fn(*a, **k)
+        status, val = common.guarded_call(call, cpu_s=10, confirm_steps=3_000_000, path_part=('soupsieve', 'bs4'))
+    if status == 'ok':
+        return val
+    if status == 'raise':
+        raise val
+    if status == 'hang':
+        raise CallDoesNotReturn(f'{getattr(fn, "__name__", fn)} burnt 10 s of CPU and then exceeded 3000000 traced steps')
+    raise Inconclusive(f'{getattr(fn, "__name__", fn)}{a[:1]!r:.120} was slow (10 s of CPU) without exceeding the step budget: inconclusive')
 
 
 def positions(doc, result):
@@ -166,7 +188,7 @@ def do_call(doc, call, NS=None):
     if kind == 'select':
         r = q(sv.select, text, target, namespaces=NS)
     elif kind == 'iselect':
-        r = list(q(sv.iselect, text, target, namespaces=NS))
+        r = q(sv.iselect, text, target, namespaces=NS)
     elif kind == 'select_one':
         r = q(sv.select_one, text, target, namespaces=NS)
     elif kind == 'match':
@@ -237,12 +259,15 @@ def check_step(recipe, doc, snap, history, fails, NS=None, odd=None):
             if tops:
                 others.append(tops[0].extract())
         others.append(bs4.BeautifulSoup('', 'html.parser').new_tag('input', attrs={'type': 'radio', 'name': 'g1'}))
+        links = [(id(x.parent), id(x.previous_element), id(x.next_sibling)) for x in others]
         try:
             g1 = [id(x) for x in q(sv.filter, text, others, namespaces=NS)]
             g2 = [id(x) for x in q(sv.filter, text, others[::-1], namespaces=NS)][::-1]
             want = [id(x) for x in others if q(sv.match, text, x, namespaces=NS)]
             if not (g1 == g2 == want):
                 fails.append(('filter-over-detached-roots-depends-on-order', f'{text!r}: forward {len(g1)}, reversed {len(g2)}, per-item match {len(want)} of {len(others)}'))
+            if links != [(id(x.parent), id(x.previous_element), id(x.next_sibling)) for x in others]:
+                fails.append(('tree-mutated-top-links', f'filter/match({text!r}) over parentless elements left one of them with a parent or neighbour'))
         except Exception as e:  # noqa: BLE001
             fails.append(('raises-' + type(e).__name__, f'filter({text!r}, detached roots): {e!r:.150}'))
     # (2) pristine copy, purged cache
@@ -257,7 +282,7 @@ def check_step(recipe, doc, snap, history, fails, NS=None, odd=None):
         fails.append(('answer-depends-on-history', f'{call}: after the history {res!r:.150}, on a pristine document {res2!r:.150}'))
     # (4) no mutation
     now = snapshot(doc)
-    for key in ('str', 'ids', 'attrs', 'parents'):
+    for key in ('str', 'ids', 'attrs', 'parents', 'top-links'):
         if now[key] != snap[key]:
             fails.append(('tree-mutated-' + key, f'after {call}'))
             break
@@ -305,6 +330,7 @@ def make_machine(col, tier, t_end):
         def __init__(self):
             super().__init__()
             self.doc = None
+            self.dead = False
 
         @initialize(seedv=st.integers(0, (1 << (8 * 3072)) - 1))
         def setup(self, seedv):
@@ -335,6 +361,8 @@ def make_machine(col, tier, t_end):
                                                                       'filter', 'filter-list', 'closest']),
               tgt=st.integers(-3, 40), perm=st.lists(st.integers(0, 20), max_size=4))
         def query(self, si, kind, tgt, perm):
+            if self.dead:       # a failure may have left the tree damaged; what follows it is not a new observation
+                return
             text = POOL[si] if si < len(POOL) else self.extra[si - len(POOL)]
             if self.ns is not None and si % 3 != 2:
                 text = POOL_XML[si % len(POOL_XML)]
@@ -347,13 +375,14 @@ def make_machine(col, tier, t_end):
             if info and info['n'] >= 2 and any(m in text for m in MEMO):
                 self.memo_queries += 1
                 self.nonempty = self.nonempty or info['nonempty']
+            self.dead = bool(fails)
             for b, d in fails[:2]:
                 col.fail(b, {'tree': self.recipe, 'history': list(self.history), 'ns': self.ns, 'odd': self.odd}, d)
 
         @rule(tgt=st.integers(0, 60), ai=st.integers(0, len(EDIT_ATTRS)), vi=st.integers(0, len(EDIT_VALUES) - 1))
         def edit(self, tgt, ai, vi):
             # the program edits the document between queries; later answers must be those of a fresh look at the edited tree
-            if self.odd:
+            if self.odd or self.dead:
                 return
             call = {'call': 'edit', 'sel': '', 'target': tgt, 'attr': EDIT_ATTRS[ai] if ai < len(EDIT_ATTRS) else '#extract',
                     'value': EDIT_VALUES[vi]}
